@@ -409,9 +409,11 @@ fn step(h: &mut H, rng: &mut Rng) -> Option<(String, String)> {
     // accessors that create a default need `Default`
     let t = if matches!(op, 16 | 18) && t >= NT_DEFAULT { rng.below(NT_DEFAULT) } else { t };
     let cur = if matches!(op, 16 | 18) { h.model.get(&(t, d)).cloned() } else { cur };
-    let world = &mut h.world as *mut World;
+    #[allow(unused_assignments)]
+    let mut world = &mut h.world as *mut World;
     // SAFETY of the raw pointer: `h.world` is only touched through this alias inside the closures
     // below while no other borrow of it exists (needed because `expect` takes &mut h afterwards).
+    // A step that goes on after an `expect` call (which borrows all of `h`) derives it afresh.
     macro_rules! w {
         () => {
             unsafe { &mut *world }
@@ -595,21 +597,25 @@ fn step(h: &mut H, rng: &mut Rng) -> Option<(String, String)> {
             if let Some(f) = h.expect(what, r, Ok("()".into())) {
                 return Some(f);
             }
+            world = &mut h.world as *mut World;
             // while it is leaked: presence is unaffected, a conflicting fetch panics, a
             // compatible one succeeds
             let r = guarded(|| format!("{}", w!().has_value_raw(rid(t, d))));
             if let Some(f) = h.expect(format!("has_value_raw(T{}#{}) with a leaked guard", t, d), r, Ok("true".into())) {
                 return Some(f);
             }
+            world = &mut h.world as *mut World;
             let r = with_cty!(t, T => guarded(|| fmt_opt(w!().try_fetch_mut_by_id::<T>(rid(t, d)).map(|g| g.fp()))));
             if let Some(f) = h.expect(format!("try_fetch_mut_by_id::<T{}>(#{}) with a leaked guard", t, d), r, Err(PanicKind::Other)) {
                 return Some(f);
             }
+            world = &mut h.world as *mut World;
             let r = with_cty!(t, T => guarded(|| fmt_opt(w!().try_fetch_by_id::<T>(rid(t, d)).map(|g| g.fp()))));
             let want = if excl { Err(PanicKind::Other) } else { Ok(fmt_opt(cur)) };
             if let Some(f) = h.expect(format!("try_fetch_by_id::<T{}>(#{}) with a leaked {} guard", t, d, if excl { "exclusive" } else { "shared" }), r, want) {
                 return Some(f);
             }
+            world = &mut h.world as *mut World;
             // insert replaces - value and borrow state
             let r = with_cty!(t, T => guarded(|| {
                 if typed { w!().insert(T::make(v)) } else { w!().insert_by_id(rid(t, d), T::make(v)) }
@@ -620,6 +626,7 @@ fn step(h: &mut H, rng: &mut Rng) -> Option<(String, String)> {
             if let Some(f) = h.expect(format!("{}::<T{}>(#{}, {}) over the value with the leaked guard", if typed { "insert" } else { "insert_by_id" }, t, d, v), r, Ok("()".into())) {
                 return Some(f);
             }
+            world = &mut h.world as *mut World;
             let r = with_cty!(t, T => guarded(|| fmt_opt(w!().try_fetch_mut_by_id::<T>(rid(t, d)).map(|g| g.fp()))));
             h.expect(format!("try_fetch_mut_by_id::<T{}>(#{}) of the value inserted over the leaked one", t, d), r, Ok(fmt_opt(Some(norm(t, v)))))
         }
